@@ -283,13 +283,14 @@ def run_case(case):
                         sim, _k = build(host if host != 'ias15' else 'ias15', {'ri_bs.eps_rel': tol, 'ri_bs.eps_abs': tol}, nst)
                         if host == 'ias15':
                             sim.dt = dth
-                        ode_ = sim.create_ode(length=2, needs_nbody=False)
+                        ode_ = sim.create_ode(length=3, needs_nbody=False)
 
                         def der_(odep, yDot, y, t, om=om):
                             yDot[0] = y[1]
                             yDot[1] = -om * om * y[0]
+                            yDot[2] = om * math.cos(om * t)          # non-autonomous: the right-hand side must be handed the ODE's own time
                         ode_.derivatives = der_
-                        ode_.y[0], ode_.y[1] = 1.0, 0.0
+                        ode_.y[0], ode_.y[1], ode_.y[2] = 1.0, 0.0, 0.0
                         if host == 'ias15':
                             sim.integrate(T, exact_finish_time=1)
                         else:
@@ -299,6 +300,9 @@ def run_case(case):
                         # global error of an accepted-tolerance integrator over om*T radians
                         allow = 1e3 * tol * max(1.0, om * abs(tt)) + 1e-10
                         counters['ode_stiff_runs'] = counters.get('ode_stiff_runs', 0) + 1
+                        e3 = abs(ode_.y[2] - math.sin(om * tt))
+                        if gt(e3, allow):
+                            add('converge:user-ode:time-argument', '%s host %s om*dt=%.1f tol %.0e: y\' = om cos(om t) integrated to t=%g gives %.6f, sin(om t) = %.6f' % (desc0, host, om * abs(dth), tol, tt, ode_.y[2], math.sin(om * tt)))
                         if gt(e, allow):
                             add('converge:user-ode:free-stiff', '%s host %s om*dt=%.1f tol %.0e: ODE state at t=%g off by %.3e (allowed %.1e)' % (desc0, host, om * abs(dth), tol, tt, e, allow))
                         del ode_
